@@ -317,67 +317,58 @@ theorem C01_roundtrip_checked_fuel_free (le : Bool) (n : Nat) (ts : List Ty) (pv
   have hk := Code.keysOKB_fields pv items hitems (Code.keysOKCheck_sound pv hkeys)
   exact ⟨items, hitems, C01_roundtrip_conf_fuel_free le ts pv items vs fdl off bs pre suf hts hitems hrep hk henc hpre⟩
 
-/-! Instances: a variant (holding the list `[1, 2]`, inferred `ai`) inside a dict inside an array inside an array -
-signature `aa{sv}h`, values `[[{'k': [1, 2]}], 5]`, little endian, offset 3, bytes before and after. -/
+/-! Instances (data in `FuelFreeEx`, Proofs/Wire/FuelFree.lean): a variant (holding the list `[1, 2]`, inferred `ai`)
+inside a dict inside an array inside an array, then a descriptor - signature `aa{sv}h`, values `[[{'k': [1, 2]}], 5]`,
+little endian, offset 3, bytes before and after. -/
+section
+open FuelFreeEx
 
-/-- The hypotheses of `C01_roundtrip_checked_fuel_free` hold for it (all by evaluation). -/
-example :
-    let ts : List Ty := [.array (.array (.dict (.basic .s) .variant)), .basic .h]
-    let pv : PyVal := .list [.list [.dict [(.str .plain ['k'], .list [.int .plain 1, .int .plain 2])]], .int .plain 5]
-    let vs : List Val := [.array [.array [.entry (.str [107]) (.variant (.array (.basic .i)) (.array [.int 1, .int 2]))]],
-      .int 0]
-    allWF ts = true ∧ Code.toSpecTop 20 ts pv = some (vs, [.int .plain 5]) ∧ Code.keysOKCheck pv = true ∧
-      Spec.encodeAll Code.genAlign (endianOf true) ts vs 3 =
-        some [0, 32, 0, 0, 0, 24, 0, 0, 0, 0, 0, 0, 0, 1, 0, 0, 0, 107, 0, 2, 97, 105, 0, 0, 0, 8, 0, 0, 0, 1, 0, 0, 0,
-          2, 0, 0, 0, 0, 0, 0, 0] := by
-  refine ⟨by decide, rfl, rfl, by decide +kernel⟩
+/-- The hypotheses of `C01_roundtrip_checked_fuel_free` hold for it (all by evaluation; `bsL` is what CPython's
+`marshal` produces). -/
+example : allWF ts = true ∧ Code.toSpecTop 20 ts pv = some (vs, [.int .plain 5]) ∧ Code.keysOKCheck pv = true ∧
+    Spec.encodeAll Code.genAlign (endianOf true) ts vs 3 = some bsL ∧ pre3.length = 3 :=
+  ⟨by decide, rfl, rfl, by decide +kernel, rfl⟩
 
-/-- ... so the theorem yields both equations, with the fuels it computes (`8 + 41 = 49` for the encoder,
-`codeFuel = 8 + (46 - 3) + 1 = 52` for the decoder; the value is 6 levels deep). -/
-example :
-    let sig := ['a', 'a', '{', 's', 'v', '}', 'h']
-    let pv : PyVal := .list [.list [.dict [(.str .plain ['k'], .list [.int .plain 1, .int .plain 2])]], .int .plain 5]
-    let bs : Bytes := [0, 32, 0, 0, 0, 24, 0, 0, 0, 0, 0, 0, 0, 1, 0, 0, 0, 107, 0, 2, 97, 105, 0, 0, 0, 8, 0, 0, 0, 1, 0,
-      0, 0, 2, 0, 0, 0, 0, 0, 0, 0]
-    let data : Bytes := [9, 9, 9] ++ bs ++ [0xaa, 0x55]
-    Code.marshal 49 sig pv 3 true (some []) = .ok (41, bs, some [.int .plain 5]) ∧
-    Code.unmarshal (Cost.codeFuel sig data 3) sig data 3 true (some [.int .plain 5]) =
-      .ok (41, [.list [.dict [(.str .plain ['k'], .list [.int .plain 1, .int .plain 2])]], .int .plain 5]) := by
-  intro sig pv bs data
-  obtain ⟨items, hitems, hm, hu⟩ := C01_roundtrip_checked_fuel_free true 20
-    [.array (.array (.dict (.basic .s) .variant)), .basic .h] pv
-    [.array [.array [.entry (.str [107]) (.variant (.array (.basic .i)) (.array [.int 1, .int 2]))]], .int 0]
-    [.int .plain 5] 3 bs [9, 9, 9] [0xaa, 0x55] (by decide) rfl rfl (by decide +kernel) rfl
-  have hi : items = [.list [.dict [(.str .plain ['k'], .list [.int .plain 1, .int .plain 2])]], .int .plain 5] := by
-    have : Code.structFields pv = some [.list [.dict [(.str .plain ['k'], .list [.int .plain 1, .int .plain 2])]],
-      .int .plain 5] := rfl
-    rw [this] at hitems
-    exact (Option.some.inj hitems).symm
-  subst hi
-  exact ⟨hm, hu⟩
+/-- ... so the theorem applies, with the fuels IT computes. -/
+example : ∃ items, Code.structFields pv = some items ∧
+    Code.marshal ((renderAll ts).length + bsL.length) (renderAll ts) pv 3 true (some []) =
+      .ok (bsL.length, bsL, some [.int .plain 5]) ∧
+    Code.unmarshal (Cost.codeFuel (renderAll ts) (pre3 ++ bsL ++ suf) 3) (renderAll ts) (pre3 ++ bsL ++ suf) 3 true
+      (some [.int .plain 5]) = .ok (bsL.length, Code.plainBList items) :=
+  C01_roundtrip_checked_fuel_free true 20 ts pv vs [.int .plain 5] 3 bsL pre3 suf (by decide) rfl rfl
+    (by decide +kernel) rfl
 
-/-- The same two equations by evaluating the code model directly (the kernel runs `Code.marshal` / `Code.unmarshal`
-at the fuels of the theorem), and: at fuel 5 - one below the depth of the value - both answer `RecursionError`. -/
+/-- ... and what it says about the decoder, spelled out: 41 bytes, the values `[[{'k': [1, 2]}], 5]`. -/
+example : Code.unmarshal (Cost.codeFuel (renderAll ts) (pre3 ++ bsL ++ suf) 3) (renderAll ts) (pre3 ++ bsL ++ suf) 3 true
+      (some [.int .plain 5]) = .ok (41, decoded) := by
+  obtain ⟨items, hi, _, hu⟩ := C01_roundtrip_checked_fuel_free true 20 ts pv vs [.int .plain 5] 3 bsL pre3 suf
+    (by decide) rfl rfl (by decide +kernel) rfl
+  have h : Code.structFields pv = some decoded := rfl
+  rw [h] at hi
+  cases hi
+  exact hu
+
+/-- The same by running the code model in the kernel at the fuels of the theorem (`7 + 41 = 48` for the encoder,
+`codeFuel = 7 + (46 - 3) + 1 = 51` for the decoder); the value is 6 levels deep, and at fuel 5 both directions answer
+`RecursionError` - the premise that was removed is not vacuous. -/
 example :
-    let sig := ['a', 'a', '{', 's', 'v', '}', 'h']
-    let pv : PyVal := .list [.list [.dict [(.str .plain ['k'], .list [.int .plain 1, .int .plain 2])]], .int .plain 5]
-    let bs : Bytes := [0, 32, 0, 0, 0, 24, 0, 0, 0, 0, 0, 0, 0, 1, 0, 0, 0, 107, 0, 2, 97, 105, 0, 0, 0, 8, 0, 0, 0, 1, 0,
-      0, 0, 2, 0, 0, 0, 0, 0, 0, 0]
-    let data : Bytes := [9, 9, 9] ++ bs ++ [0xaa, 0x55]
-    (match Code.marshal 49 sig pv 3 true (some []) with
-     | .ok (n, b, _) => n == 41 && b == bs
+    renderAll ts = sig ∧ (renderAll ts).length + bsL.length = 48 ∧ Cost.codeFuel sig (pre3 ++ bsL ++ suf) 3 = 51 ∧
+    depthAll vs = 6 ∧
+    (match Code.marshal 48 sig pv 3 true (some []) with
+     | .ok (n, b, _) => n == 41 && b == bsL
      | .error _ => false) = true ∧
-    (match Code.unmarshal (Cost.codeFuel sig data 3) sig data 3 true (some [.int .plain 5]) with
-     | .ok (n, vs) => n == 41 && vs.length == 2
+    (match Code.unmarshal 51 sig (pre3 ++ bsL ++ suf) 3 true (some [.int .plain 5]) with
+     | .ok (n, vals) => n == 41 && vals.length == 2
      | .error _ => false) = true ∧
-    Cost.codeFuel sig data 3 = 52 ∧
     (match Code.marshal 5 sig pv 3 true (some []) with
      | .error e => e == .recursion
      | .ok _ => false) = true ∧
-    (match Code.unmarshal 5 sig data 3 true (some [.int .plain 5]) with
+    (match Code.unmarshal 5 sig (pre3 ++ bsL ++ suf) 3 true (some [.int .plain 5]) with
      | .error e => e == .recursion
      | .ok _ => false) = true := by
   decide +kernel
+
+end
 
 /-- `C01_roundtrip_fuel_free` itself (the `Rep` formulation): its hypotheses hold for `aa{sv}` with `[[{'k': 'hi'}]]`. -/
 example :
@@ -398,10 +389,9 @@ example :
     simp only [Code.Rep]
     refine ⟨_, _, _, _, 0, rfl, trivial, rfl, ?_, ?_⟩
     · exact ⟨.s, rfl, Or.inr ⟨by decide, ⟨_, _, rfl, by decide⟩, rfl⟩⟩
-    · simp only [Code.Rep]
-      refine ⟨trivial, rfl, ?_, trivial⟩
+    · refine ⟨rfl, rfl, ?_, rfl⟩
       exact ⟨.s, rfl, Or.inr ⟨by decide, ⟨_, _, rfl, by decide⟩, rfl⟩⟩
-  · simp only [Code.KeysOKList, Code.KeysOK, Code.KeysOKPairs, Code.plainPairs, Code.plain, and_true, true_and,
+  · simp only [Code.KeysOKList, Code.KeysOK, Code.KeysOKPairs, Code.plainPairs, Code.plain, and_true,
       List.map_cons, List.map_nil]
     exact ⟨[.str ['k']], rfl, by simp⟩
 
